@@ -15,7 +15,7 @@
 (***************************************************************************)
 EXTENDS Integers, Sequences, FiniteSets, TLC, BigAmt
 
-CONSTANTS D, W_, P, PartSize, FaultMaxAge, MinPower, MinMiners
+CONSTANTS D, W_, P, PartSize, FaultMaxAge, FaultCutoff, MinLife, MaxLife, MinPower, MinMiners
 
 SeqSet(s) == {s[i] : i \in 1..Len(s)}
 Idx(s) == 1..Len(s)
@@ -121,6 +121,7 @@ ClaimOf(Wd, m) ==
   LET c == {i \in Idx(Wd.power.claims) : Wd.power.claims[i].m = m} IN
   IF c = {} THEN <<-1, -1>> ELSE LET i == CHOOSE x \in c : TRUE IN <<Wd.power.claims[i].raw, Wd.power.claims[i].qa>>
 ActiveSet(M) == UNION {Active(pt) : pt \in AllParts(M)}
+PowerIsActiveExcept(Wd, lost) == \A i \in Idx(Wd.miners) : Wd.miners[i].m \in lost \/ ClaimOf(Wd, Wd.miners[i].m) = Pow(Wd.miners[i], ActiveSet(Wd.miners[i]))
 PowerIsActive(Wd) == \A i \in Idx(Wd.miners) : ClaimOf(Wd, Wd.miners[i].m) = Pow(Wd.miners[i], ActiveSet(Wd.miners[i]))
 \* "the network totals equal the sum of per-miner claims under the consensus-minimum rule"
 TotalsOK(Wd) ==
@@ -149,7 +150,7 @@ SumMinersPledge(Wd, i) == IF i > Len(Wd.miners) THEN BZero
                           ELSE BAdd(BAdd(Wd.miners[i].ip, Wd.miners[i].locked), SumMinersPledge(Wd, i + 1))
 NetPledgeLiteral(Wd) == BEq(Wd.power.pledge, SumMinersPledge(Wd, 1))
 NetPledgeAdjusted(Wd, cdepSum) == BEq(BAdd(Wd.power.pledge, cdepSum), SumMinersPledge(Wd, 1))
-NetPledgeNonNeg(Wd) == ~BIsNeg(Wd.power.pledge)
+NetPledgeNonNeg(Wd) == ~BIsNeg(Wd.power.pledgeReal)
 \* C01 (miner clause): "each miner holds at least its pre-commit deposits plus vesting funds plus
 \* initial pledge" -- after every successful message
 MinerSolvent(M) == BLeq(BAdd(BAdd(M.pcd, M.locked), M.ip), M.bal)
@@ -164,6 +165,9 @@ ProvingEvents(Wd, m) ==
       cnt(i) == Cardinality({j \in Idx(q[i].evs) : q[i].evs[j][1] = m /\ q[i].evs[j][2] = 1})
       f == [i \in Idx(q) |-> cnt(i)]
   IN  SumInt(Idx(q), f)
+CronScheduledExcept(Wd, lost) ==
+  \A i \in Idx(Wd.miners) : LET M == Wd.miners[i] IN
+     M.m \in lost \/ ((M.cronActive <=> ProvingEvents(Wd, M.m) = 1) /\ ProvingEvents(Wd, M.m) <= 1)
 CronScheduled(Wd) ==
   \A i \in Idx(Wd.miners) : LET M == Wd.miners[i] IN
      (M.cronActive <=> ProvingEvents(Wd, M.m) = 1) /\ ProvingEvents(Wd, M.m) <= 1
@@ -183,6 +187,10 @@ DeadlineCurrent(Wd) == \A i \in Idx(Wd.miners) : DeadlineCurrentFor(Wd, Wd.miner
 QueueNotStale(Wd) ==
   \A i \in Idx(Wd.power.cronq) : Len(Wd.power.cronq[i].evs) > 0 => Wd.power.cronq[i].e >= Wd.epoch
 \* bounded-lag forms of "expirations, fault time-outs and early terminations are all eventually processed"
+NoOverdueExpiryExcept(Wd, lost) ==
+  \A i \in Idx(Wd.miners) : LET M == Wd.miners[i] IN
+    M.m \in lost \/ \A d \in Idx(M.dls) : \A p \in Idx(M.dls[d].parts) : \A k \in Idx(M.dls[d].parts[p].q) :
+        M.dls[d].parts[p].q[k].e + P >= Wd.epoch
 NoOverdueExpiry(Wd) ==
   \A i \in Idx(Wd.miners) : LET M == Wd.miners[i] IN
     \A d \in Idx(M.dls) : \A p \in Idx(M.dls[d].parts) : \A k \in Idx(M.dls[d].parts[p].q) :
@@ -205,6 +213,122 @@ LedgerDelta(pre, post, tr) ==
   \A a \in BalNames(pre) \cup BalNames(post) : BEq(BSub(BalOf(post, a), BalOf(pre, a)), NetFlow(tr, a, 1))
 LedgerUnchanged(pre, post) == \A a \in BalNames(pre) \cup BalNames(post) : BEq(BalOf(post, a), BalOf(pre, a))
 NoNegativeBalance(b) == \A i \in Idx(b) : ~BIsNeg(b[i][2])
+
+\* ---- C15: faults and terminations are paid for (step formulas; pre = world before, e = the event)
+SentFrom(tr, a, b) ==   \* total value of the effective transfers from a to b
+  LET RECURSIVE F(_)
+      F(i) == IF i > Len(tr) THEN BZero
+              ELSE BAdd(IF tr[i][1] = a /\ tr[i][2] = b THEN tr[i][3] ELSE BZero, F(i + 1))
+  IN  F(1)
+MinerByName(w, m) == w.miners[CHOOSE i \in Idx(w.miners) : w.miners[i].m = m]
+\* "fee debt blocks withdrawals, new pre-commits and recovery declarations until repaid":
+\* such a call succeeds only if the debt is gone when it returns
+DebtBlocks(e) == (e.ok /\ e.ev \in {"Withdraw", "PreCommit", "DeclareRecovered"}) => BIsZero(MinerByName(e.st, e.m).debt)
+\* "penalties are never negative and never flow to the miner"
+BurnMonotone(pre, e) == BLeq(pre.burnt, e.st.burnt)
+NoFlowFromBurn(e) == \A i \in Idx(e.tr) : e.tr[i][1] # "f099"
+\* consensus fault: the whole penalty is accounted for -- burnt, paid to the reporter, or left as fee debt
+ConsensusFaultPaid(pre, e) ==
+  (e.ev = "ReportFault" /\ e.ok) =>
+     LET M1 == MinerByName(pre, e.m) M2 == MinerByName(e.st, e.m)
+         burnt == SentFrom(e.tr, e.m, "f099")
+         paid == SentFrom(e.tr, e.m, "rep")
+     IN  /\ BEq(BAdd(BAdd(burnt, paid), BSub(M2.debt, M1.debt)), e.cfPenalty)
+         /\ BLeq(paid, BAdd(burnt, paid))          \* the reporter gets no more than was taken
+         /\ M2.cfElapsed > e.st.epoch
+\* "each deadline through which a sector stays faulty charges the miner a continued-fault fee for its power":
+\* a tick that closes exactly one deadline of a miner whose cron is running, with sectors of that deadline faulty
+\* (declared, skipped, missed earlier, or recovering-but-unproven) when it closes, takes something from the miner
+\* -- burnt at once or recorded as fee debt.  (The size of the fee is a numeric function of the network's reward
+\* and power estimates and is not re-derived here; with equal-sized sectors it is positive whenever a sector is faulty.)
+ClosingIn(M, E, n) == {x \in E..(E + n - 1) : (x - M.pps) % W_ = W_ - 1}
+ContinuedFaultCharged(pre, e, lost) ==
+  (e.ev = "Tick" /\ e.cronOK /\ Len(e.fails) = 0) =>
+    \A i \in Idx(pre.miners) :
+      LET M1 == pre.miners[i] cl == ClosingIn(M1, pre.epoch, e.n) IN
+      (M1.cronActive /\ M1.m \notin lost /\ Cardinality(cl) = 1) =>
+         LET x == CHOOSE y \in cl : TRUE
+             d == ((x - M1.pps) \div W_) % D     \* (computed from the offset: the recorded index may lag, see F2)
+             M2 == MinerByName(e.st, M1.m)
+         IN  (x >= M1.pps /\ DlFaults(M1, d + 1) # {}) =>
+               BIsPos(BAdd(SentFrom(e.tr, M1.m, "f099"), BSub(M2.debt, M1.debt)))
+\* "a successfully disputed proof removes the power and penalises the miner": the disputed partitions' sectors
+\* that were credited are faulty afterwards, and the miner paid (burnt + disputer's reward + new debt > 0);
+\* the disputer receives no more than was taken
+DisputePenalised(pre, e) ==
+  (e.ev = "Dispute" /\ e.ok) =>
+     LET M1 == MinerByName(pre, e.m) M2 == MinerByName(e.st, e.m)
+         burnt == SentFrom(e.tr, e.m, "f099")
+         paid == SentFrom(e.tr, e.m, "rep")
+     IN  /\ BIsPos(BAdd(BAdd(burnt, paid), BSub(M2.debt, M1.debt)))
+         /\ \A a \in {e.tr[j][2] : j \in {k \in Idx(e.tr) : e.tr[k][1] = e.m}} : a \in {"f099", "rep"}
+         /\ ActiveSet(M2) \cap DlAll(M2, e.dl + 1) \subseteq ActiveSet(M1) \cap DlAll(M1, e.dl + 1)
+         /\ ActiveSet(M2) \cap DlAll(M2, e.dl + 1) # ActiveSet(M1) \cap DlAll(M1, e.dl + 1)
+\* early termination: each sector whose termination was processed in this step paid at least 2% of its pledge
+TerminatedNow(pre, e) ==
+  LET M1 == MinerByName(pre, e.m) M2 == MinerByName(e.st, e.m)
+  IN  (LiveAll(M1) \ LiveAll(M2)) \ EtqSectors(M2)
+TerminationFeeFloor(pre, e) ==
+  (e.ev = "Terminate" /\ e.ok) =>
+     LET M1 == MinerByName(pre, e.m) M2 == MinerByName(e.st, e.m)
+         tb == Tb(M1)
+         gone == TerminatedNow(pre, e) \cap tb.nos
+         floor == SumBig(gone, [n \in gone |-> BDivSmall(BMulSmall(tb.pledge[n], 2), 100)])
+         charged == BAdd(SentFrom(e.tr, e.m, "f099"), BSub(M2.debt, M1.debt))
+     IN  BLeq(floor, charged)
+
+\* ---- C14: vesting.  Reward vesting spec: 180 days, daily steps, quantised to 12 h aligned with the
+\* miner's proving period offset; 75% of a block reward is locked.
+VestPeriod == 518400
+VestStep == 2880
+VestQuant == 1440
+\* floor(x * k / VestPeriod) for 0 <= k <= 2^31 using small-factor limb arithmetic
+MulDivPeriod(x, k) ==
+  LET hi == k \div 1000  lo == k % 1000
+      prod == BAdd(BMulSmall(BMulSmall(x, hi), 1000), BMulSmall(x, lo))
+  IN  BDivSmall(BDivSmall(prod, 2880), 180)
+\* the schedule add_locked_funds creates for locking L at epoch t with quantisation offset off:
+\* a sequence of <<epoch, amount>>
+RECURSIVE SchedR(_, _, _, _, _)
+SchedR(L, t, off, k, done) ==
+  IF BLeq(L, done) THEN <<>>
+  ELSE LET ve == QuantUp(t + k * VestStep, VestQuant, off)
+           el == ve - t
+           target == IF el < VestPeriod THEN MulDivPeriod(L, el) ELSE L
+       IN  <<<<ve, BSub(target, done)>>>> \o SchedR(L, t, off, k + 1, target)
+Sched(L, t, off) == SchedR(L, t, off, 1, BZero)
+VestAt(v, ep) == LET c == {i \in Idx(v) : v[i][1] = ep} IN IF c = {} THEN BZero ELSE v[CHOOSE i \in c : TRUE][2]
+SchedAt(sc, ep) == LET c == {i \in Idx(sc) : sc[i][1] = ep} IN
+                   IF c = {} THEN BZero ELSE BSumSeq([j \in 1..Cardinality(c) |-> sc[CHOOSE i \in c : Cardinality({x \in c : x < i}) = j - 1][2]])
+\* "locked block rewards ... vest linearly over 180 days in daily steps": a block reward locks 75% on
+\* exactly that schedule (checked when no penalty or debt interferes with the table in the same call)
+RewardVestsOnSchedule(pre, e) ==
+  (e.ev = "Reward" /\ e.ok /\ e.penalty = 0) =>
+     LET M1 == MinerByName(pre, e.m) M2 == MinerByName(e.st, e.m)
+         got == SentFrom(e.tr, "f02", e.m)
+         L == BDivSmall(BMulSmall(got, 75), 100)
+         sc == Sched(L, pre.epoch, M1.pps)
+         eps == {M1.vest[i][1] : i \in Idx(M1.vest)} \cup {M2.vest[i][1] : i \in Idx(M2.vest)} \cup {sc[i][1] : i \in Idx(sc)}
+     IN  (BIsZero(M1.debt) /\ BIsZero(M2.debt) /\ BIsPos(got)) =>
+            \A ep \in {x \in eps : x >= pre.epoch} :
+                BEq(BSub(VestAt(M2.vest, ep), VestAt(M1.vest, ep)), SchedAt(sc, ep))
+\* "no part becomes withdrawable before its vesting epoch except to pay the miner's own penalties":
+\* the not-yet-vested part of the table never shrinks unless funds were burnt or debt changed in the step
+Unvested(v, t) == BSumSeq([i \in Idx(v) |-> IF v[i][1] >= t THEN v[i][2] ELSE BZero])
+NoEarlyUnlock(pre, e) ==
+  \A i \in Idx(e.st.miners) :
+     LET M2 == e.st.miners[i] M1 == MinerByName(pre, M2.m) IN
+     \/ (M1.vest = M2.vest /\ pre.epoch = e.st.epoch)
+     \/ BLeq(Unvested(M1.vest, e.st.epoch), Unvested(M2.vest, e.st.epoch))
+     \/ BIsPos(SentFrom(e.tr, M2.m, "f099")) \/ ~BEq(M1.debt, M2.debt)
+\* a withdrawal pays only from what is neither vesting, pledged, deposited nor owed
+WithdrawBounded(pre, e) ==
+  (e.ev = "Withdraw" /\ e.ok) =>
+     LET M2 == MinerByName(e.st, e.m) IN
+     /\ BIsZero(M2.debt)
+     /\ BLeq(BAdd(BAdd(M2.pcd, M2.locked), M2.ip), M2.bal)
+     /\ Len(M2.earlyDls) = 0
+     /\ \A i \in Idx(e.tr) : (e.tr[i][1] = e.m) => e.tr[i][2] \in {M2.ben, "f099", "f04"}
 
 \* ---- C14: the vesting table
 VestShape(Wd) ==
